@@ -18,8 +18,6 @@ bad = 0
 by_commit = collections.defaultdict(list)
 for e in kf:
     if props and e['property'] not in props: continue
-    if e.get('race'):
-        print('SKIP(race build)', e['id']); continue
     r = replay(ROOT + '/' + e['replay'])
     want = 'reproduced' if e.get('status') == 'known' else 'not-reproduced'
     ok = r == want
